@@ -112,7 +112,7 @@ def _rand_seq(rnd, n, alpha):
 def cases(tier, seed):
 	rnd = random.Random(seed)
 	# exhaustive tiny: all sequences up to length 5 over ACGT for a few (k, prefix)
-	for k, prefix in ((1, b'A'), (2, b'AT'), (1, b'AA'), (2, b'C'), (1, b'AT'), (1, b'TA'), (2, b'GC')):
+	for k, prefix in ((1, b'A'), (2, b'AT'), (1, b'AA'), (2, b'C'), (1, b'AT'), (1, b'TA'), (2, b'GC'), (1, b'AAA'), (2, b'AAA'), (1, b'ATA')):
 		for n in range(0, 6 if tier == 'quick' else 7):
 			for t in itertools.product(b'ACGT', repeat=n):
 				yield {'k': k, 'prefix': list(prefix), 'seqs': [list(t)], 'type': 'bytes'}
@@ -125,6 +125,16 @@ def cases(tier, seed):
 			seqs = [_rand_seq(rnd, rnd.randrange(5, 80), b'ACGT' if k < 12 else b'AT') for _ in range(rnd.randrange(1, 3))]
 			steps.append({'seqs': seqs, 'type': rnd.choice(['bytes', 'str']), 'fail': rnd.random() < .4})
 		yield {'kind': 'history', 'k': k, 'prefix': prefix, 'steps': steps}
+	# self-overlapping prefixes (several overlap lengths) on low-complexity sequences: every overlapping occurrence counts
+	for prefix in (b'AAA', b'AAAA', b'ATATA', b'AACAA', b'CCC', b'TTTTT', b'ACACAC', b'GAGAG'):
+		for k in (1, 2, 3):
+			for rep in range(6 if tier == 'quick' else 60):
+				unit = bytes(rnd.choice(sorted(set(prefix))) for _ in range(rnd.randrange(1, 3)))
+				body = (unit * rnd.randrange(3, 12))[:rnd.randrange(len(prefix), 30)]
+				s_ = list(body + bytes(rnd.choice(b'ACGT') for _ in range(rnd.randrange(0, 6))) + body[:rnd.randrange(0, 8)])
+				if rnd.random() < .5:
+					s_ = [COMP.get(b, b) for b in reversed(s_)]
+				yield {'k': k, 'prefix': list(prefix), 'seqs': [s_], 'type': rnd.choice(['bytes', 'str']), 'acc': 'default', 'single': True}
 	# large k: every index-dtype boundary (k = 4/5, 8/9, 16/17, 31/32) with k-mers spread over the WHOLE index range in one
 	# sequence (first base A, C, G and T: indices below and above 2^(bits-1)), several per sequence and across sequences
 	for k in (4, 5, 8, 9, 15, 16, 17, 24, 31, 32):
